@@ -279,6 +279,11 @@ var BigDocs = []BigDoc{
 	{"long-numeric-array-then-brackets-in-strings-in-array", func(n int) []byte {
 		return []byte(`[{"a":` + strings.Repeat("1", n) + `},"]",[1,2],"}","[{","\"]",["]["]]`)
 	}},
+	// nesting that continues in a LATER sibling after a finished container (pooled per-level state)
+	{"deep-arrays-each-after-an-empty-array-sibling", func(n int) []byte { return []byte(strings.Repeat("[[],", n) + strings.Repeat("]", n)) }},
+	{"deep-objects-each-after-an-object-sibling", func(n int) []byte {
+		return []byte(strings.Repeat(`{"a":{},"b":`, n) + "1" + strings.Repeat("}", n))
+	}},
 	{"long-plain-string-then-brackets-in-strings", func(n int) []byte {
 		return []byte(`["` + strings.Repeat("a", n) + `","]","}",{"k":"}"},"\"]"]`)
 	}},
